@@ -85,7 +85,9 @@ def patch_items(name, mi, data, blk, func, isa="x64"):
             items.append(Item("label", sym=arg, end=False, blk=None, patch=mi, temp=arg.startswith(".L")))
             continue
         if kind == "cfi":
-            items.append(Item("cfi", directive=arg, patch=mi, blk=None))
+            parts = arg.replace(",", " ").split()
+            items.append(Item("cfi", name=parts[0], operands=[int(x, 0) for x in parts[1:]], patch=mi, blk=None,
+                              orig=False, cls="must", before=None, after=None))
             continue
         if kind == "d":
             n = int(arg)
@@ -154,12 +156,31 @@ class Listing:
                     items.append(Item("label", sym=s, end=False, blk=bid, patch=None, temp=False))
                     ls.label_block[s] = bid
                 atoms = sc.atoms[bid]
+                cfi_at = {}
+                for c in sc.spec.get("cfi", []):
+                    if c["blk"] == bid:
+                        cfi_at.setdefault(c["at"], []).extend(c["dirs"])
+
+                def put_cfi(j, post):
+                    """directives at boundary j: those before the first .cfi_endproc precede the insertion slot,
+                    the endproc and everything after it follow the slot (split rule of the library, R9)"""
+                    dirs = cfi_at.get(j, [])
+                    k = next((i for i, d in enumerate(dirs) if d[0] == ".cfi_endproc"), len(dirs))
+                    for d in (dirs[k:] if post else dirs[:k]):
+                        items.append(Item("cfi", name=d[0], operands=list(d[1]), sym=(d[2] if len(d) > 2 else None),
+                                          patch=None, blk=bid, orig=True, cls="must",
+                                          before=(j - 1 if j > 0 else None), after=(j if j < len(atoms) else None)))
+
+                put_cfi(0, False)
                 items.append(Item("slot", blk=bid, j=0))
+                put_cfi(0, True)
                 for j, a in enumerate(atoms):
                     items.append(Item("atom", id=a.id, kind=a.kind, target=a.target, length=a.length, rope=a.rope(),
                                       blk=bid, idx=j, code=a.code, orig=True, patch=None, func=bs.get("func"),
                                       annots=a.annots, expr=None))
+                    put_cfi(j + 1, False)
                     items.append(Item("slot", blk=bid, j=j + 1))
+                    put_cfi(j + 1, True)
                 for s in bs.get("esyms", []):
                     items.append(Item("label", sym=s, end=True, blk=bid, patch=None, temp=False))
             tail = sc.gaps.get("tail:" + ss["name"])
@@ -228,14 +249,33 @@ class Listing:
                     return items, i
         raise KeyError((blk, j))
 
+    def in_procedure(self, blk, j):
+        """Is insertion slot (blk, j) inside a CFI procedure of the listing?"""
+        items, i = self._find_slot(blk, j)
+        depth = 0
+        for it in items[:i]:
+            if it.t == "cfi" and it.name == ".cfi_startproc":
+                depth += 1
+            elif it.t == "cfi" and it.name == ".cfi_endproc":
+                depth -= 1
+        return depth > 0
+
     def insert(self, blk, j, new_items):
         items, i = self._find_slot(blk, j)
+        if any(it.t == "cfi" for it in new_items) and not self.in_procedure(blk, j):
+            new_items = [it for it in new_items if it.t != "cfi"]  # outside a procedure the patch's CFI is discarded
         items[i:i] = new_items
 
     def delete(self, blk, j, k, proxy=False):
         items, _ = self._find_slot(blk, j)
         natoms = sum(1 for it in items if it.t == "atom" and it.orig and it.blk == blk)
         whole = j == 0 and k == natoms
+        structural = (".cfi_startproc", ".cfi_endproc", ".cfi_remember_state", ".cfi_restore_state")
+        for it in items:
+            if it.t == "cfi" and it.orig and it.blk == blk:
+                adjacent = [a for a in (it.before, it.after) if a is not None]
+                if it.name not in structural and any(j <= a < k for a in adjacent):
+                    it.cls = "may"
         items[:] = [it for it in items if not (it.t == "atom" and it.orig and it.blk == blk and j <= it.idx < k)]
         if whole and proxy:
             for it in items:
@@ -266,6 +306,25 @@ class Listing:
         else:
             i = next(i for i, it in enumerate(items) if it.t == "slot" and it.blk == blk)
             items[i:i] = mine
+
+    def mark_empty_procedures(self):
+        """A procedure that no longer covers any instruction (all of its code
+        was deleted) may be dropped as a unit: startproc, endproc and all
+        directives in between."""
+        n = 0
+        for items in self.sections.values():
+            start = None
+            for i, it in enumerate(items):
+                if it.t == "cfi" and it.name == ".cfi_startproc":
+                    start = i
+                elif it.t == "atom" and it.code:
+                    start = None
+                elif it.t == "cfi" and it.name == ".cfi_endproc" and start is not None:
+                    n += 1
+                    for x in items[start:i + 1]:
+                        if x.t == "cfi":
+                            x.cls = "unit%d" % n
+                    start = None
 
     # ---- read-offs ----------------------------------------------------------------
     def rope(self, section):
